@@ -27,7 +27,7 @@ import (
 
 type Entry struct {
 	Name string `json:"name"`
-	T    string `json:"t"` // f d l(symlink) h(hard link)
+	T    string `json:"t"` // f d l(symlink) h(hard link) c(contiguous file: tar type '7', a regular file)
 	Len  int    `json:"len,omitempty"`
 	Fill int    `json:"fill,omitempty"`
 	Link string `json:"link,omitempty"`
@@ -143,7 +143,16 @@ func (prop) Generate(rng *sim.Rng, tier string, runIndex int) driver.Scenario {
 		sc.Entries = append(sc.Entries, Entry{Name: pre(dotSlash, nm), T: "f", Len: ln, Fill: rng.Intn(256)})
 	}
 	if odd {
-		switch rng.Intn(9) {
+		switch rng.Intn(11) {
+		case 9:
+			// a regular file stored as a "contiguous file" (tar type '7'): same thing as far as
+			// its name and bytes go; tar(1) extracts it as a regular file
+			sc.Entries = append(sc.Entries, Entry{Name: top + "contig.bin", T: "c", Len: rng.Range(1, 400), Fill: 0x37})
+		case 10:
+			// a second name of a file that, once cleaned, is its first name (what
+			// `tar cf x.tar a ./a` stores when a has two links): nothing to do, and
+			// certainly nothing to remove
+			sc.Entries = append(sc.Entries, Entry{Name: top + "a", T: "f", Len: rng.Range(1, 200), Fill: rng.Intn(256)}, Entry{Name: "./" + top + "a", T: "h", Link: top + "a"})
 		case 7:
 			// an entry that carries the archive's own file name (a release tarball that
 			// ships the previous release's tarball, a zip that was zipped next to itself)
@@ -354,7 +363,8 @@ func classify(sc *Scenario) (k klass, want map[string][]byte, wantDirs map[strin
 			}
 		}
 		if e.T == "l" || e.T == "h" {
-			if isFile[rel] || wantDirs[rel] {
+			selfLink := e.T == "h" && isFile[rel] && strings.TrimPrefix(path.Clean("/d/"+e.Link), "/d/") == rel
+			if (isFile[rel] || wantDirs[rel]) && !selfLink {
 				k.illform = true
 			}
 			linkNames[rel] = true
@@ -366,7 +376,11 @@ func classify(sc *Scenario) (k klass, want map[string][]byte, wantDirs map[strin
 			// = bin/clang) and must be there with the same bytes.  Zip has no such entry.
 			tgt := strings.TrimPrefix(path.Clean("/d/"+e.Link), "/d/")
 			k.links = true
-			if !isFile[tgt] || rel == "" || rel == tgt {
+			if isFile[tgt] && rel == tgt {
+				delete(linkNames, rel)
+				continue // its own first name again: the file stays what it is
+			}
+			if !isFile[tgt] || rel == "" {
 				k.illform = true
 				continue
 			}
@@ -392,7 +406,10 @@ func classify(sc *Scenario) (k klass, want map[string][]byte, wantDirs map[strin
 				}
 				wantDirs[rel] = true
 			}
-		case "f":
+		case "f", "c":
+			if e.T == "c" && sc.Format == "zip" {
+				continue // zip has no such entry type: not written into the archive
+			}
 			if rel == "" || wantDirs[rel] {
 				k.illform = true
 				continue
@@ -432,7 +449,7 @@ func buildArchive(sc *Scenario) []byte {
 				if w, err := zw.CreateHeader(h); err == nil {
 					w.Write([]byte(e.Link))
 				}
-			case "h":
+			case "h", "c":
 			default:
 				h.SetMode(0644)
 				if w, err := zw.CreateHeader(h); err == nil {
@@ -459,6 +476,9 @@ func buildArchive(sc *Scenario) []byte {
 			tw.WriteHeader(h)
 		default:
 			h.Typeflag = tar.TypeReg
+			if e.T == "c" {
+				h.Typeflag = tar.TypeCont
+			}
 			d := fileData(e)
 			h.Size = int64(len(d))
 			if tw.WriteHeader(h) == nil {
